@@ -11,15 +11,15 @@ namespace Mqtt
 theorem sameCore_fields (w w' : World) (hents : w'.ents = w.ents) (hreqs : w'.reqs = w.reqs) (htimers : w'.timers = w.timers)
     (hfired : w'.fired = w.fired) (hcr : w'.connReqs = w.connReqs) (hprotos : w'.protos = w.protos) (hid : w'.nextId = w.nextId)
     (hidle : w.nextId ≤ 65535) (h1 : w'.nextReq = w.nextReq) (h2 : w'.nextTimer = w.nextTimer)
-    (h3 : w'.nextDfd = w.nextDfd) (h4 : w'.nextCR = w.nextCR) (h5 : w'.nextProto = w.nextProto) : SameCore w w' :=
+    (h3 : w'.nextDfd = w.nextDfd) (h4 : w'.nextCR = w.nextCR) (h5 : w'.nextProto = w.nextProto) (h6 : w'.profile = w.profile) : SameCore w w' :=
   sameCore_of w w' hents (fun r => by simp [World.req, hreqs]) (fun t => by rw [htimers]) hfired hcr hprotos hid hidle
-    h1 h2 h3 h4 h5
+    h1 h2 h3 h4 h5 h6
 
 theorem emit_inv {x : Option Nat} {w : World} (h : WInvX x w) (o : Obs) : WInvX x (w.emit o) :=
-  h.sameCore (sameCore_fields w _ rfl rfl rfl rfl rfl rfl rfl h.idCounter rfl rfl rfl rfl rfl)
+  h.sameCore (sameCore_fields w _ rfl rfl rfl rfl rfl rfl rfl h.idCounter rfl rfl rfl rfl rfl rfl)
 
 theorem rx_inv {x : Option Nat} {w : World} (h : WInvX x w) (rx' : List RxEnt) : WInvX x { w with rx := rx' } :=
-  h.sameCore (sameCore_fields w _ rfl rfl rfl rfl rfl rfl rfl h.idCounter rfl rfl rfl rfl rfl)
+  h.sameCore (sameCore_fields w _ rfl rfl rfl rfl rfl rfl rfl h.idCounter rfl rfl rfl rfl rfl rfl)
 
 /-- an update of a protocol object that leaves alone the fields the invariant mentions -/
 theorem setProto_sameCore {w : World} (p : Nat) (f : Proto → Proto) (ppr : Proto) (hpp : w.protos.get? p = some ppr)
@@ -28,7 +28,7 @@ theorem setProto_sameCore {w : World} (p : Nat) (f : Proto → Proto) (ppr : Pro
       (f ppr).pingAlarm = ppr.pingAlarm ∧ (f ppr).pingKeepalive = ppr.pingKeepalive ∧ (f ppr).connReq = ppr.connReq ∧
       (Bytes.WF ppr.buffer → Bytes.WF (f ppr).buffer)) :
     SameCore w { w with protos := w.protos.set p (f (w.proto p)) } := by
-  have hsame := sameCore_fields w w rfl rfl rfl rfl rfl rfl rfl hid rfl rfl rfl rfl rfl
+  have hsame := sameCore_fields w w rfl rfl rfl rfl rfl rfl rfl hid rfl rfl rfl rfl rfl rfl
   refine { hsame with protos := ?_ }
   intro q
   rw [getD_of_get? hpp]
